@@ -52,7 +52,7 @@ def conforms(name, sem, run):
 
 
 def main(ck):
-    pr = ck.proof('C10')
+    pr = ck.proof('C10', extra_modules=('VtlModel.Props.C10Types',))
     q = ck.quick()
     g = G.Gen(ck.rng)
     gflat = G.Gen(ck.rng, flat=True)
